@@ -36,3 +36,70 @@ def c18_walk_count(prop, tier, seed, cfg):
                        "verifier_output": "syntactic count over /repo/src/dns_sector.rs parse_rr: the composition lemma assumes a loop-free parse_rr with at most 3 name walks per record"}, f, indent=1)
         lines.append("VIOLATION property=C18 replay=%s no-failing-input-found" % path)
     return (not lines), info, lines
+
+
+C17_CONE = ["compress.rs", "renamer.rs", "parsed_packet.rs", "dns_sector.rs", "rr_iterator.rs", "response_iterator.rs",
+            "question_iterator.rs", "edns_iterator.rs", "synth/gen.rs", "synth/parser.rs", "constants.rs", "errors.rs", "synth/mod.rs"]
+C17_PATTERNS = [
+    (r"\bstatic\s+mut\b", "static mut"),
+    (r"\bthread_local!\s*", "thread_local!"),
+    (r"\blazy_static!\s*", "lazy_static!"),
+    (r"\b(OnceCell|OnceLock|LazyLock|LazyCell|Lazy)\b", "lazily initialised global"),
+    (r"\bstatic\s+[A-Z_0-9]+\s*:\s*[^=;]*\b(Mutex|RwLock|RefCell|Cell|Atomic[A-Za-z0-9]*|UnsafeCell)\b", "static with interior mutability"),
+    (r"\brand::|\brng\s*\(|\.random\s*\(|thread_rng|SystemTime|Instant::now|std::time|std::env|env::var|std::process::id", "ambient input (randomness / time / environment)"),
+    (r"\bunsafe\b", "unsafe"),
+]
+
+
+def c17_scan(prop, tier, seed, cfg):
+    """Purity scan of the cone of parse / uncompress / compress / rename / synthesis: no hidden state, no ambient inputs.
+    The one permitted use of randomness is the transaction id drawn in ParsedPacket::empty()."""
+    from rustlex import SourceFile, strip_comments
+    hits, scanned = [], []
+    for rel in C17_CONE:
+        path = os.path.join(extract.REPO, "src", rel)
+        if not os.path.exists(path):
+            continue
+        src = open(path).read()
+        code = strip_comments(src)
+        scanned.append(rel)
+        # span of ParsedPacket::empty (the permitted randomness)
+        allowed = None
+        if rel == "parsed_packet.rs":
+            try:
+                sf = SourceFile(path, rel)
+                own, fn = sf.find_member("impl", "ParsedPacket", "empty")
+                allowed = (fn.start, fn.end)
+            except Exception:
+                allowed = None
+        for rx, what in C17_PATTERNS:
+            for m in re.finditer(rx, code):
+                line = code.count("\n", 0, m.start()) + 1
+                if what.startswith("ambient") and allowed and allowed[0] <= m.start() < allowed[1]:
+                    continue
+                if what.startswith("ambient") and re.match(r"\s*use\s", code[code.rfind("\n", 0, m.start()) + 1:m.start() + 1] or ""):
+                    continue    # an import alone does nothing
+                if rel == "parsed_packet.rs" and re.match(r"use rand::prelude::\*;", code[code.rfind("\n", 0, m.start()) + 1:].split("\n")[0].strip()):
+                    continue
+                hits.append({"file": rel, "line": line, "what": what, "text": code[m.start():m.start() + 60].split("\n")[0]})
+    # a fresh suffix dictionary per call
+    fresh = {}
+    for rel, owner, fn_name in (("compress.rs", "Compress", "compress"), ("renamer.rs", "Renamer", "rename_with_raw_names")):
+        try:
+            sf = SourceFile(os.path.join(extract.REPO, "src", rel), rel)
+            own, fn = sf.find_member("impl", owner, fn_name)
+            body = strip_comments(sf.src[fn.body[0]:fn.body[1]])
+            fresh["%s::%s" % (owner, fn_name)] = bool(re.search(r"let\s+mut\s+[a-z_]+\s*=\s*SuffixDict::new\s*\(\s*\)\s*;", body))
+        except Exception as e:
+            fresh["%s::%s" % (owner, fn_name)] = False
+    info = {"files_scanned": scanned, "hits": hits, "fresh_dictionary_per_call": fresh}
+    lines = []
+    bad = [h for h in hits if h["what"] != "unsafe"] + [h for h in hits if h["what"] == "unsafe"]
+    if bad or not all(fresh.values()):
+        path = os.path.join(ROOT, "replays", "C17-scan.json")
+        os.makedirs(os.path.dirname(path), exist_ok=True)
+        with open(path, "w") as f:
+            json.dump({"property": "C17", "obligation": "purity-scan", "observed": info,
+                       "verifier_output": "hidden state or an ambient input inside the cone of parse/uncompress/compress/rename/synthesis, or a suffix dictionary that is not created per call"}, f, indent=1)
+        lines.append("VIOLATION property=C17 replay=%s no-failing-input-found" % path)
+    return (not lines), info, lines
